@@ -432,6 +432,12 @@ C04_Accept(c, trk, call, o) ==
   ELSE LET g == EffGet(c.mem, KindOfCall(call)) IN
        (g.k = "absent" \/ (g.k = "must" /\ SpecConformant(c.mem, KindOfCall(call), g.it))) /\ call.op # "str"
           => AcceptInfoRead(c, trk, call, o)
+\* number of sections all ELF-sections tags of the walk yield together (cases where every such table fits)
+RECURSIVE SumSeq(_)
+SumSeq(xs) == IF xs = <<>> THEN 0 ELSE xs[1] + SumSeq(Tail(xs))
+ElfAllCount(mem) ==
+  LET w == InfoWalk(mem)  ts == SelectSeq(w.items, LAMBDA it : it.typ = U32Bytes(9)) IN
+  SumSeq([i \in 1..Len(ts) |-> Len(ElfItems(mem, ts[i], ElfParams(mem, ts[i])))])
 C19_Accept(c, trk, call, o) ==
   CASE call.op = "elf_sections" ->
          IF trk.loaded # "bi" THEN o.k = "skipped"
@@ -453,6 +459,9 @@ C19_Accept(c, trk, call, o) ==
          ELSE AcceptElfNext(c.mem, ElfIt(c), ExtOf(c), s.k, s.dead, o)
     \* Debug of the sections tag (and of the whole boot information) iterates too: it ends in a controlled way
     [] call.op = "dbg" /\ call.what \in {"elf", "bi"} /\ HasTagIt(c, "elf") -> Controlled(o)
+    \* the sections of all ELF-sections tags as values: each equals itself and nothing else, == agrees with cmp and hash
+    [] call.op = "elf_cmp" /\ trk.loaded = "bi" ->
+         o.k = "cmp" /\ o.n = ElfAllCount(c.mem) /\ o.eq = o.n /\ o.consistent = 1
     [] OTHER -> TRUE
 \* calls on an iterator that was never created are recorded as skipped
 C_Skipped(c, trk, call, o) ==
@@ -629,7 +638,7 @@ C20_Accept(c, trk, call, o) ==
     [] OTHER -> TRUE
 
 \* ---- C01: never outside the region, never a crash, references inside the owning tag ------------
-InfoOps == {"cast_item", "nth", "count", "last", "custom_get", "load", "tags", "module_tags", "efi_areas", "elf_sections", "elf_sections_deprecated", "next", "clone",
+InfoOps == {"elf_cmp", "cast_item", "nth", "count", "last", "custom_get", "load", "tags", "module_tags", "efi_areas", "elf_sections", "elf_sections_deprecated", "next", "clone",
             "len", "size_hint", "get", "field", "str", "area", "dbg", "elf_field", "elf_name"}
 \* the extent a call's results must stay in
 OwnerExtent(c, trk, call) ==
@@ -910,6 +919,9 @@ DesignStep(c0, ds, call) ==
          LET v == ChecksumBytes(call.magic, U32Bytes(call.arch), call.length) IN
          [o |-> [k |-> "val", v |-> v, twin |-> v], ds |-> ds]
     [] call.op = "custom_get" -> [o |-> IF ds.loaded # "bi" THEN Skipped ELSE DesignCustomGet(c, call), ds |-> ds]
+    [] call.op = "elf_cmp" ->
+         [o |-> IF ds.loaded # "bi" THEN Skipped
+                ELSE LET n == ElfAllCount(c.mem) IN [k |-> "cmp", n |-> n, eq |-> n, consistent |-> 1], ds |-> ds]
     [] call.op = "slice_cast" ->
          LET d == Declared(c, HTAG)  r == DesignRefFromSlice(HTAG, Len(c.mem), Al(c), d) IN
          [o |-> IF r.k # "ok" THEN r
